@@ -172,8 +172,15 @@ func reconstructAliasedMap(node *CandidateNode, context Context) error {
 		}
 	}
 	node.Content = make([]*CandidateNode, 0)
+	// the list holds keys and values alternating: add them as entries, so that every value knows its key
 	for newEl := newContent.Front(); newEl != nil; newEl = newEl.Next() {
-		node.AddChild(newEl.Value.(*CandidateNode))
+		keyNode := newEl.Value.(*CandidateNode)
+		newEl = newEl.Next()
+		if newEl == nil {
+			node.AddChild(keyNode)
+			break
+		}
+		node.AddKeyValueChild(keyNode, newEl.Value.(*CandidateNode))
 	}
 	return nil
 }
